@@ -103,6 +103,15 @@ def step2 (u : Univ) (fuel : Nat) (p : St2) : Op2 → St2
  | .copyAB h => { p with b := ((xcopyAt u fuel p.a p.b h).map (·.1)).getD p.b }
  | .copyBA h => { p with a := ((xcopyAt u fuel p.b p.a h).map (·.1)).getD p.a }
 
+/-- every chain of references starting at the node `a` of class `c` has fewer than `n` links (so: no cycle is reachable) -/
+def Acyc (u : Univ) (s : St) : Nat → Nat → Nat → Prop
+ | 0, _, _ => False
+ | n + 1, a, c => ∃ cl, u[c]? = some cl ∧ ∀ (k : Nat) (fk : FK), cl[k]? = some fk →
+    match fk with
+    | .scal => True
+    | .ref c' => ∀ t, deref s.b.mem (a + foff cl k) = some t → Acyc u s n t c'
+    | .uref cs => ∀ t c', deref s.b.mem (a + foff cl k) = some t → refClass s (.uref cs) (a + foff cl k) = some c' → Acyc u s n t c'
+
 /-- indistinguishable by reads along every path of at most `n` references: same scalars, null where the other is null, referents
 of the same class that are indistinguishable to depth `n - 1` -/
 def Sim (u : Univ) (s s' : St) : Nat → Nat → Nat → Nat → Prop
